@@ -51,6 +51,7 @@ def toPositiveIndex (index : BitVec 32) (arrayLength : BitVec 32) : Except Err (
 def sentinel : BitVec 32 := 0xFFFFFFFF#32
 
 def posIndex32 (n : Nat) (iv : BitVec 32) : Res Nat :=
+  if n ≥ 4294967296 then .err .overflowError else      -- `self._atom_count` does not convert to `uint32`
   match toPositiveIndex iv (BitVec.ofNat 32 n) with
   | .error e => .err e
   | .ok p => if p = sentinel then .crash else .ok p.toNat
@@ -108,6 +109,10 @@ def ctorCore (n : Nat) (typed : Bool) (rows : List Bond) : Res BL :=
   if typed && rows.any (fun c => decide (c.2.2 ≥ 10)) then .err .valueError else
   let bs := dedupAux [] (rows.map (sortRow typed))
   .ok ⟨n, bs, maxBonds n bs⟩
+
+/-- per-row sort, dedup and cached maximum without the type check (what runs once the check has passed) -/
+def ctorBuild (n : Nat) (typed : Bool) (rows : List Bond) : BL :=
+  ⟨n, dedupAux [] (rows.map (sortRow typed)), maxBonds n (dedupAux [] (rows.map (sortRow typed)))⟩
 
 def normRows (n : Nat) : List (Int × Int × Nat) → Option (List Bond)
   | [] => some []
@@ -332,6 +337,57 @@ def getitemL (s : BL) (ix : Idx) : Layout → Res BL
     | .mask _ => .err .valueError
     | .smask _ => .err .valueError
     | _ => getitem s ix
+
+/-! ## C widths and array dtypes around the core operations
+
+The core functions above compute with unbounded naturals.  The functions below add what the real code does at the
+edges of its machine types; the driver runs these.  Inside the stated size bounds they coincide with the core
+(`C02_full_agrees_*`); outside they refuse, wrap or accept what they should not (`…_rejects`, `…_defect`). -/
+
+/-- `_to_positive_index_array` mixes the Python int `length` into an array of the caller's dtype: NumPy refuses
+(`OverflowError: Python integer … out of bounds for int8`) when the atom count exceeds the dtype's maximum — for *any*
+content of the array.  `dmax` = maximum of a narrow integer dtype, `none` for int64/platform ints. -/
+def dtypeRefuses (n : Nat) (dmax : Option Nat) : Bool :=
+  match dmax with
+  | some m => decide (n > m)
+  | none => false
+
+/-- `BondList(n, bonds)` with the bond types as they come (signed), the array dtype, and the `uint32 atom_count`
+argument.  A negative bond type passes `bonds[:, 2] >= len(BondType)` and is stored by the `uint32` assignment as
+`t mod 2^32`. -/
+def newBLFull (n : Nat) (typed : Bool) (input : List (Int × Int × Int)) (dmax : Option Nat) : Res BL :=
+  if n ≥ 4294967296 then .err .overflowError
+  else if input.isEmpty then .ok (BL.empty n)
+  else if dtypeRefuses n dmax then .err .overflowError
+  else if input.all (fun r => decide (0 ≤ r.2.2)) then
+    newBL n typed (input.map fun r => (r.1, r.2.1, r.2.2.toNat))
+  else
+    match normRows n (input.map fun r => (r.1, r.2.1, (r.2.2 % 4294967296).toNat)) with
+    | none => .err .indexError
+    | some rows =>
+      if typed && input.any (fun r => decide (r.2.2 ≥ 10)) then .err .valueError
+      else .ok (ctorBuild n typed rows)
+
+def getitemFull (s : BL) (ix : Idx) (layout : Layout) (dmax : Option Nat) : Res BL :=
+  match ix with
+  | .arr _ => if dtypeRefuses s.n dmax then .err .overflowError else getitemL s ix layout
+  | _ => getitemL s ix layout
+
+/-- `cdef int cum_atom_count`: the running atom count must fit a C `int`. -/
+def concatenateFull (ls : List BL) : Res BL :=
+  if ls.isEmpty then .err .valueError
+  else if (ls.map (·.n)).sum > 2147483647 then .err .overflowError
+  else concatenate ls
+
+def wrap32 (bs : List Bond) : List Bond := bs.map fun c => (c.1 % 4294967296, c.2.1 % 4294967296, c.2.2)
+
+/-- `self._bonds[:, :2] += offset` on a `uint32` array wraps; `self._atom_count += offset` is a Python int and does not. -/
+def offsetFull (s : BL) (k : Int) : Res BL :=
+  match offsetIndices s k with
+  | .ok r => .ok ⟨r.n, wrap32 r.bonds, r.cachedMax⟩
+  | .err e => .err e
+  | .crash => .crash
+  | .ub => .ub
 
 /-! ## Views -/
 
